@@ -233,10 +233,18 @@ def trees(ctx):
     singles = [[]] + [[(pos, kind)] for pos in FAULT_POS for kind in FAULTS if not (ctx.quick and kind in ODD and pos not in FAULT_POS[:2])]
     doubles = []
     if not ctx.quick:
-        cells = [(pos, kind) for pos in FAULT_POS for kind in FAULTS]
+        # every pair of the nine classic fault kinds on different positions; the unusual-but-valid kinds and the link kinds pair up
+        # with a fault of their own kind and with a non-UTF-8 file (the fault whose handling touches the most shared state)
+        classic = [k for k in FAULTS if k not in ODD and k != "link_to_an_output"]
+        cells = [(pos, kind) for pos in FAULT_POS for kind in classic]
         for a, b in itertools.combinations(cells, 2):
             if a[0] != b[0]:
                 doubles.append([a, b])
+        for kind in list(ODD) + ["link_to_an_output"]:
+            for a, b in (("0.css", "b.css"), ("0.css", "n.css"), ("b.css", "sub/y.css")):
+                doubles.append([(a, kind), (b, kind)])
+                doubles.append([(a, kind), (b, "non_utf8")])
+                doubles.append([(a, "non_utf8"), (b, kind)])
     if ctx.quick:
         # two faults of the same kind around / before the good files (only with two-file layouts in the quick tier)
         for kind in ("non_utf8", "dangling_link", "unserialisable", "fails_late_defines_t"):
@@ -262,6 +270,8 @@ def run(ctx):
         for f in singles + doubles:
             if ctx.quick and len(f) == 2 and len(lay) != 2:
                 continue
+            if not ctx.quick and len(f) == 2 and len(lay) == 3:
+                continue   # fault pairs around one and two good files (the three-file layouts get every single fault)
             if ctx.quick and len(lay) == 3 and f and f[0][0] not in ("b.css", FAULT_POS[-1]):
                 continue   # quick tier: full layouts get faults between the files and in the nested hidden place only
             # fault pairs are explored under the default settings only (the second settings column is for single faults)
